@@ -18,7 +18,8 @@ MANIFEST = dict(
          'var-int length prefix, address layouts incl. anycast), that load returns the stored symbol and consumes exactly its bits, '
          'that preload returns what load returns without consuming, for maybe-refs/dicts/snake chains as well. Values are symbolic; '
          'the conversion int<->bits itself is the modelled library contract (bitarray.util.int2ba/ba2int).'
-         ' Default-length string reads, snake strings with and without the prefix byte and preload_ref(k) at every cursor position are covered.',
+         ' Default-length string reads, snake strings with and without the prefix byte and preload_ref(k) at every cursor position are covered.'
+         ' Snake strings whose text begins with, ends with or consists of U+0000 round-trip.',
     note='trusted: interpreter, model of bitarray/int2ba/ba2int. Not decided: UTF-8 handling, library behaviour.',
     design_ref='DESIGN.md section 4 C06')
 
